@@ -66,6 +66,8 @@ impl<const KEYSIZE: usize> Key<KEYSIZE> {
     let rng = SystemRandom::new();
     let mut buf = [0u8; KEYSIZE];
     rng.fill(&mut buf)?;
+    #[cfg(rusty_paseto_verif)]
+    crate::verif_hooks::rng_tap(&mut buf);
     Ok(Self(buf))
   }
 }
